@@ -267,7 +267,7 @@ impl Relocation for RiscvRelocation {
                 return s.read_value(buf)
             },
             Self::B => {
-                bits = 12;
+                bits = 13;
                 let instr = LittleEndian::read_u32(buf);
 
                 unpacked = ((instr >> 31) & 0x1) << 12;
@@ -276,7 +276,7 @@ impl Relocation for RiscvRelocation {
                 unpacked |= ((instr >> 7) & 0x1) << 11;
             },
             Self::J => {
-                bits = 20;
+                bits = 21;
                 let instr = LittleEndian::read_u32(buf);
 
                 unpacked = ((instr >> 31) & 0x1) << 20;
